@@ -365,7 +365,7 @@ open Hy.Mux Hy.MuxMgr
 
 /-- every mux state reached through the manager API — under EVERY manager-level schedule of
     ListenSOCKS/ListenHTTP calls (two steps each), closes, arrivals and mux steps, with or
-    without the D16 wake-up — is a state of the mux transition system, so `routing`,
+    without a wake-up on registration — is a state of the mux transition system, so `routing`,
     `no_panic_no_leak`, `exactly_one_or_closed` … hold for every mux the manager ever created -/
 theorem mgr_projects_to_mux (wake : Bool) (msched : List MLabel) (id : Nat) (w : MuxW)
     (h : (mrun wake minit msched).muxes[id]? = some w) : ∃ sched, w.st = run fixed init sched :=
@@ -415,22 +415,31 @@ theorem kind_registered_at_most_once (s : St) (k : Kind) (t : Nat)
     s'.conn = s.conn ∧ s'.phase = s.phase ∧ s'.aloop = s.aloop := by
   simp [step, listen, hs, hlive]
 
-/-- release: in every reachable manager state (with the D16 wake-up), for every order of
-    registrations and closes that led there — once every sub-listener of a mux is closed,
-    mainLoop's own next five steps (capture, see SOCKS closed, capture, see HTTP closed, run the
-    deferred function) close the base listener and delete the map entry. So no base listener
-    stays open once its last sub-listener is closed. -/
-theorem release_on_last_close (msched : List MLabel) (id : Nat) (w : MuxW)
-    (h : (mrun true minit msched).muxes[id]? = some w) (hall : allClosed w = true) (hopen : w.baseOpen = true) :
-    let m' := mrun true (mrun true minit msched) (releaseSched id)
+/-- release, for the code AS IT IS (and for the hypothetical wake variant alike): in every
+    reachable manager state, for every order of registrations and closes that led there — once
+    every sub-listener of a mux is closed AND mainLoop's view is current (`CaptureCurrent`: it
+    is at its loop head, e.g. because a connection has just been handed to it, or the close
+    channels it captured are those of the registered sub-listeners, i.e. every registration
+    precedes its current capture), mainLoop's own next five steps (capture, see SOCKS closed,
+    capture, see HTTP closed, run the deferred function) close the base listener and delete the
+    map entry. Without that hypothesis release can be late: `D16_late_registration_observation`. -/
+theorem release_on_last_close (wake : Bool) (msched : List MLabel) (id : Nat) (w : MuxW)
+    (h : (mrun wake minit msched).muxes[id]? = some w) (hall : allClosed w = true) (hopen : w.baseOpen = true)
+    (hcur : CaptureCurrent w) :
+    let m' := mrun wake (mrun wake minit msched) (releaseSched id)
     (∃ w', m'.muxes[id]? = some w' ∧ w'.baseOpen = false) ∧ m'.table w.key = none := by
   intro m'
-  have hw : WInv w := mux_induction WInv true winv_new (fun w k => winv_register w k) winv_capture winv_stepMux msched id w h
-  obtain ⟨sched, hs⟩ := mux_reachable true msched id w h
+  have hw : WInv w := mux_induction WInv wake winv_new (fun w k => winv_register wake w k) winv_capture winv_stepMux msched id w h
+  obtain ⟨sched, hs⟩ := mux_reachable wake msched id w h
   have hi : SlotValid w.st := by rw [hs]; exact (inv_run init sched inv_init).slotValid
-  have hc := releaseW_closes w hw hi hall
-  obtain ⟨g, gt⟩ := release_run true _ id w h
+  have hc := releaseW_closes w hw hcur hi hall
+  obtain ⟨g, gt⟩ := release_run wake _ id w h
   exact ⟨⟨releaseW w, g, hc⟩, gt hopen hc⟩
+
+/-- the hypothesis is met whenever mainLoop has just been woken (it is at its loop head): so one
+    further accepted connection always brings the release -/
+theorem capture_current_at_loop_head (w : MuxW) (h : w.atTop = true) : CaptureCurrent w := by
+  intro _ h2; rw [h] at h2; simp at h2
 
 /-- … and only then: the base listener is closed only by mainLoop's deferred function, and
     mainLoop leaves its loop only when both registration slots are empty or the base listener's
@@ -450,25 +459,34 @@ theorem exit_only_when_idle_or_accept_failed (s : St) (l : Label)
   cases l <;> simp only [step, listen] at h2 ⊢
   all_goals (repeat' split at h2) <;> simp_all
 
-/-- a listen on an address that has been released creates a fresh mux with a new, open base
-    listener and makes the map point to it -/
+/-- a listen on a RELEASED address (no map entry: never listened on, or its mux has run its
+    deferred function) creates a fresh mux with a new, open base listener and makes the map
+    point to it -/
 theorem relisten_opens_fresh (wake : Bool) (m : MSt) (k : Kind) (key : Nat) (h : m.table key = none) :
     let m' := mstep wake m (.call k key true)
     m'.table key = some m.muxes.length ∧
     ∃ w, m'.muxes[m.muxes.length]? = some w ∧ w.key = key ∧ w.baseOpen = true ∧ w.st.subs = [] ∧ w.st.phase = .running := by
   simp [mstep, h]
 
-/-- D16, the tree as found (no wake-up on registration): mainLoop reaches its select before the
-    first sub-listener is registered; that sub-listener is closed; mainLoop's release steps do
-    nothing — the base listener stays open and the address stays in the map -/
-theorem D16_pinned_counterexample :
-    let m := mrun false minit ([.call .socks 0 true, .capture 0, .register 0 .socks, .mux 0 (.closeSub 0)] ++ releaseSched 0)
-    (m.muxes.map (·.baseOpen)) = [true] ∧ m.table 0 = some 0 ∧ (m.muxes.map allClosed) = [true] := by decide
+/-- an observation about the code as it is (noticed, not part of the property: no connection is
+    affected): mainLoop reaches its select before the first sub-listener is registered (the
+    history `mgr lLS@a0 X0` of the harness); that sub-listener is closed; mainLoop's release steps
+    do nothing — the base listener stays open and the address stays in the map — until one more
+    connection is accepted: it finds no handler and is closed, mainLoop wakes, and the same
+    release steps now close the base listener and delete the map entry -/
+theorem D16_late_registration_observation :
+    let late : List MLabel := [.call .socks 0 true, .capture 0, .register 0 .socks, .mux 0 (.closeSub 0)]
+    let m := mrun false minit (late ++ releaseSched 0)
+    let m2 := mrun false m ([.mux 0 (.baseAccept 7), .mux 0 .handToMain, .mux 0 (.readFail 7)] ++ releaseSched 0)
+    (m.muxes.map (·.baseOpen)) = [true] ∧ m.table 0 = some 0 ∧ (m.muxes.map allClosed) = [true] ∧
+    (m2.muxes.map (·.baseOpen)) = [false] ∧ m2.table 0 = none ∧ (m2.muxes.map (fun w => w.st.conn 7)) = [.closed] := by
+  decide
 
-/-- the same history with the wake-up: released -/
-theorem D16_fixed_history :
-    let m := mrun true minit ([.call .socks 0 true, .capture 0, .register 0 .socks, .mux 0 (.closeSub 0)] ++ releaseSched 0)
-    (m.muxes.map (·.baseOpen)) = [false] ∧ m.table 0 = none := by decide
+/-- the hypothesis of `release_on_last_close` is an invariant of the hypothetical variant in
+    which a registration wakes mainLoop — which is exactly what the code does not do -/
+theorem capture_current_if_registration_woke (msched : List MLabel) (id : Nat) (w : MuxW)
+    (h : (mrun true minit msched).muxes[id]? = some w) : CaptureCurrent w :=
+  captureCurrent_wake msched id w h
 
 end mgr
 
